@@ -10,66 +10,93 @@ CVC5_TIMEOUT_S = int(os.environ.get("VERIF_CVC5_TIMEOUT_S", "60"))
 CVC5 = "/usr/bin/cvc5"
 
 
+def _z3_try(smt2, timeout_ms, seed):
+    import z3
+    s = z3.Solver()
+    s.set("timeout", int(timeout_ms))
+    if seed:
+        s.set("random_seed", seed)
+        s.set("smt.random_seed", seed)
+    s.from_string(smt2)
+    r = s.check()
+    return str(r), (s.reason_unknown() if r == z3.unknown else "")
+
+
+def _cvc5_try(smt2, strings):
+    import z3
+    text = smt2
+    if "(lambda" in text:
+        # z3 prints list concatenations as array lambdas; `select` of a lambda is not SMT-LIB: beta-reduce with z3's simplifier
+        try:
+            s0 = z3.Solver()
+            s0.from_string(smt2)
+            s1 = z3.Solver()
+            for a in s0.assertions():
+                s1.add(z3.simplify(a))
+            text = s1.to_smt2()
+        except Exception:  # noqa
+            text = smt2
+    with tempfile.NamedTemporaryFile("w", suffix=".smt2", delete=False) as f:
+        logic = "HO_ALL" if "(lambda" in text else "ALL"
+        f.write(f"(set-logic {logic})\n" + text + ("\n(check-sat)\n" if "(check-sat)" not in text else ""))
+        path = f.name
+    cmd = [CVC5, "--lang=smt2", f"--tlimit={CVC5_TIMEOUT_S * 1000}"]
+    if strings:
+        cmd.append("--strings-exp")
+    try:
+        p = subprocess.run(cmd + [path], capture_output=True, text=True, timeout=CVC5_TIMEOUT_S + 10)
+    finally:
+        os.unlink(path)
+    out = p.stdout.strip().split("\n")[0] if p.stdout.strip() else ""
+    return out, (out or p.stderr.strip()[:200])
+
+
 def _solve_one(job):
+    """Portfolio for one VC.  z3 is unstable on identical input (sequence solver; quantified array VCs are solved in seconds under one random
+    seed and not at all under another), so the schedule is: z3 seed 0 (short) -> [strings: cvc5 first] -> z3 seeds 1..3 (short) -> cvc5 ->
+    z3 seeds 4..9.  Only `unsat` discharges, only `sat` refutes; everything else stays `unknown`."""
     idx, smt2, use_cvc5, strings = job[:4]
     quick = len(job) > 4 and job[4]
-    import z3
     t0 = time.time()
     res, backend, info = "unknown", "z3-5.1.0", ""
     if quick:
         use_cvc5 = False
-    try:
-        s = z3.Solver()
-        # z3 is unstable on identical input (sequence solver; nonlinear sector arithmetic): a short first try, then cvc5, then z3 again
-        first_budget = 5000 if quick else (15000 if use_cvc5 else Z3_TIMEOUT_MS)
-        s.set("timeout", first_budget)
-        s.from_string(smt2)
-        r = s.check()
-        res = str(r)
-        if r == z3.unknown:
-            info = s.reason_unknown()
-    except Exception as e:  # noqa
-        res, info = "error", repr(e)
-    if res in ("unknown", "error") and use_cvc5 and os.path.exists(CVC5):
+    budget_ms = Z3_TIMEOUT_MS
+    first = 5000 if quick else (15000 if use_cvc5 else budget_ms)
+
+    def z3_stage(seeds, each_ms):
+        nonlocal res, info, backend
+        for seed in seeds:
+            try:
+                r, why = _z3_try(smt2, each_ms, seed)
+            except Exception as e:  # noqa
+                r, why = "error", repr(e)
+            if r in ("sat", "unsat"):
+                res, backend = r, "z3-5.1.0"
+                return True
+            info = why or info
+        return False
+
+    def cvc5_stage():
+        nonlocal res, info, backend
+        if not (use_cvc5 and os.path.exists(CVC5)):
+            return False
         try:
-            text = smt2
-            if "(lambda" in text:
-                # z3 prints list concatenations as array lambdas; `select` of a lambda is not SMT-LIB: beta-reduce with z3's simplifier
-                try:
-                    s0 = z3.Solver()
-                    s0.from_string(smt2)
-                    s1 = z3.Solver()
-                    for a in s0.assertions():
-                        s1.add(z3.simplify(a))
-                    text = s1.to_smt2()
-                except Exception:  # noqa
-                    text = smt2
-            with tempfile.NamedTemporaryFile("w", suffix=".smt2", delete=False) as f:
-                logic = "HO_ALL" if "(lambda" in text else "ALL"
-                f.write(f"(set-logic {logic})\n" + text + ("\n(check-sat)\n" if "(check-sat)" not in text else ""))
-                path = f.name
-            cmd = [CVC5, "--lang=smt2", f"--tlimit={CVC5_TIMEOUT_S * 1000}"]
-            if strings:
-                cmd.append("--strings-exp")
-            p = subprocess.run(cmd + [path], capture_output=True, text=True, timeout=CVC5_TIMEOUT_S + 10)
-            os.unlink(path)
-            out = p.stdout.strip().split("\n")[0] if p.stdout.strip() else ""
+            out, why = _cvc5_try(smt2, strings)
             if out in ("unsat", "sat"):
                 res, backend, info = out, "cvc5-1.0.3", ""
-            else:
-                info += " | cvc5: " + (out or p.stderr.strip()[:200])
+                return True
+            info += " | cvc5: " + why
         except Exception as e:  # noqa
             info += " | cvc5 error " + repr(e)
-    if res in ("unknown", "error") and not quick and use_cvc5:
-        try:
-            s = z3.Solver()
-            s.set("timeout", Z3_TIMEOUT_MS)
-            s.from_string(smt2)
-            r = s.check()
-            if r != z3.unknown:
-                res, backend = str(r), "z3-5.1.0"
-        except Exception as e:  # noqa
-            info += " | z3 retry " + repr(e)
+        return False
+
+    done = z3_stage([0], first)
+    if not done and not quick and use_cvc5:
+        if strings:
+            done = cvc5_stage() or z3_stage([1, 2, 3], 15000) or z3_stage([4, 5, 6, 7], budget_ms // 8)
+        else:
+            done = z3_stage([1, 2, 3], 10000) or cvc5_stage() or z3_stage([4, 5, 6, 7, 8, 9], budget_ms // 8)
     return idx, res, backend, time.time() - t0, info
 
 
